@@ -244,7 +244,7 @@ impl Property for C13 {
     fn rule() -> String {
         "Generated: valid worlds in which one step gets threshold <= 1 and 2-4 validly signed, authorised links that differ (extra product, \
          extra material, other digest, or only command/byproducts), optionally with a rule (DISALLOW variant-*) that only some of them \
-         violate, or with an artifact recorded under two digest algorithms that agree on one and differ on the other, tied by MATCH + DISALLOW; or the step is delegated by two authorised functionaries at threshold 1 and one of the two sub-layouts cannot verify (inner link missing / by a stranger, expired, inner rule failure); the files of the link directory are created in a generated order. Oracle (invariant over repetitions): R in-process \
+         violate, or with an artifact recorded under two digest algorithms that agree on one and differ on the other, tied by MATCH + DISALLOW; or the step is delegated by two authorised functionaries at threshold 1 and one of the two sub-layouts cannot verify (inner link missing / by a stranger, expired, inner rule failure); the files of the link directory are created in a generated order. Before the repetitions the process verifies the directory once while each link file is a same-size, same-mtime near copy of its final content (history on disk). Oracle (invariant over repetitions): R in-process \
          repetitions (every HashMap gets fresh hash keys) and P fresh processes give the same verdict and, on success, the same summary \
          link as a JSON value. R=16,P=2 quick (miss probability for a fair flip 2^-17); R=64,P=8 thorough. Non-trivial: at least two counted \
          links of one step differ; distinct by (layout shape, variants, rule trap, step position)."
@@ -313,6 +313,17 @@ impl Property for C13 {
         }
         if let Some(k) = spec.surplus_sub {
             o.class(format!("surplus-failing-sub-layout:{}", k % 4));
+        }
+        // history on disk: this process has verified the directory once while every link file was a
+        // near copy of its final content (one hex digit of the signature differs; same path, size
+        // and modification time); the fresh processes below have not
+        let saved = near_copies_in_place(&links);
+        pin_mtimes(&links);
+        let _ = verify_dir_once(&dir);
+        restore_files(&saved);
+        pin_mtimes(&links);
+        if !saved.is_empty() {
+            o.class("verified-once-before-with-near-copies");
         }
         let mut outcomes: Vec<serde_json::Value> = vec![];
         for _ in 0..r_reps {
